@@ -97,11 +97,29 @@ pub fn stmt_strategy() -> BoxedStrategy<Stmt> {
     let read = read_strategy().prop_map(|sql| Stmt { class: Class::Read, sql });
     let locking = (read_strategy_simple(), prop_oneof![Just("FOR UPDATE"), Just("FOR SHARE"), Just("FOR NO KEY UPDATE"), Just("FOR KEY SHARE"), Just("FOR UPDATE OF t1 NOWAIT"), Just("FOR UPDATE SKIP LOCKED")])
         .prop_map(|(s, l)| Stmt { class: Class::LockingRead, sql: format!("{} {}", s, l) });
+    // the same locking clauses where PostgreSQL also accepts them: on a parenthesised select, after ORDER BY/LIMIT
+    // and inside a sub-select or a CTE, where it locks rows all the same (and fails on a hot standby)
+    let locking_top = (prop_oneof![Just("FOR UPDATE"), Just("FOR SHARE"), Just("FOR NO KEY UPDATE")], 0u8..7).prop_map(|(l, shape)| Stmt {
+        class: Class::LockingRead,
+        sql: match shape {
+            0 => format!("(SELECT * FROM t1 WHERE id = 1 {})", l),
+            1 => format!("(SELECT * FROM t1 WHERE id = 1) {}", l),
+            2 => format!("SELECT * FROM t1 ORDER BY a LIMIT 1 {}", l),
+            3 => format!("SELECT * FROM (SELECT * FROM t1 WHERE id = 1 {}) AS s", l),
+            4 => format!("WITH c AS (SELECT * FROM t1 WHERE id = 1 {}) SELECT * FROM c", l),
+            5 => format!("SELECT a FROM t2 WHERE b IN (SELECT id FROM t1 WHERE id < 5 {})", l),
+            _ => format!("((SELECT * FROM t1 WHERE id = 1 {}))", l),
+        },
+    });
+    let locking = prop_oneof![3 => locking, 1 => locking_top];
     let into = prop_oneof![
         Just("SELECT a, b INTO newt FROM t1 WHERE a > 1"),
         Just("SELECT * INTO TEMP tmp_t FROM t1"),
         Just("SELECT a INTO TEMPORARY TABLE tmp_t FROM t1 JOIN t2 ON t1.id = t2.id"),
         Just("SELECT count(*) AS n INTO UNLOGGED stats_t FROM t2"),
+        Just("SELECT a INTO newt FROM t1 UNION ALL SELECT a FROM t2"),
+        Just("WITH c AS (SELECT 1 AS a) SELECT a INTO newt FROM c"),
+        Just("SELECT a INTO newt FROM t1 ORDER BY a LIMIT 5"),
     ]
     .prop_map(|s| Stmt { class: Class::SelectInto, sql: s.to_string() });
     let dml_cte = (
@@ -111,11 +129,22 @@ pub fn stmt_strategy() -> BoxedStrategy<Stmt> {
             Just("INSERT INTO audit SELECT * FROM t1 RETURNING id"),
         ],
         prop_oneof![Just("SELECT * FROM w"), Just("SELECT count(*) FROM w JOIN t2 ON w.a = t2.a"), Just("SELECT 1")],
-        any::<bool>(),
+        0u8..10,
     )
-        .prop_map(|(d, s, extra)| Stmt {
+        .prop_map(|(d, s, shape)| Stmt {
             class: Class::DmlCte,
-            sql: if extra { format!("WITH r AS (SELECT 1), w AS ({}) {}", d, s) } else { format!("WITH w AS ({}) {}", d, s) },
+            // the data-modifying CTE is always at the top level (PostgreSQL's rule); what varies is the body it is attached to
+            sql: match shape {
+                0 | 1 => format!("WITH w AS ({}) {}", d, s),
+                2 => format!("WITH r AS (SELECT 1), w AS ({}) {}", d, s),
+                3 => format!("WITH w AS ({}), r AS (SELECT 1) {}", d, s),
+                4 => format!("WITH w AS ({}) {} UNION ALL SELECT 2", d, s),
+                5 => format!("WITH w AS ({}) SELECT 2 EXCEPT {}", d, s),
+                6 => format!("WITH w AS ({}) ({})", d, s),
+                7 => format!("WITH w AS ({}) VALUES (1), (2)", d),
+                8 => format!("WITH w AS ({}) ({} ORDER BY 1 LIMIT 1)", d, s),
+                _ => format!("WITH w AS ({}) {} ORDER BY 1 LIMIT 3 OFFSET 1", d, s),
+            },
         });
     let dml = prop_oneof![
         Just("INSERT INTO t1 (a, b) VALUES (1, 'x')"),
